@@ -26,14 +26,38 @@ package server
 //     reload (the SIGHUP handler's own sequence, or a real SIGHUP), so each pair of
 //     consecutive calls checks that the next call sees the new policy.
 //
-// Case = list of lines `call <Method> <shape> <policy> <load|sighup>`; each call builds
-// its own fixture (fresh stream names), so a failing call is already a minimal case.
+//   - identities: every call can be made under a context WITHOUT a usable identity (no
+//     value under the key, empty string, a non-string value, a TLS peer without / with an
+//     unverified / with an empty-CN certificate run through the real addUserContext of
+//     authz.go) or as an unknown client: all must be refused without effect, whatever the
+//     policy grants to others (tag authz-no-identity-allowed:<Method>);
+//   - sessions: real PublishAsync sessions (apiServer.PublishAsync on a fake bidi stream
+//     whose Recv hands out one message at a time) with SEQUENCES of messages to several
+//     streams, policy reloads and pauses between messages; per message: no policy entry at
+//     the time it is processed => PERMISSION_DENIED reply, no ack, not in the stream's log,
+//     stream not resumed (tag authz-async-publish-unchecked);
+//   - the check itself: ensureAuthorizationPermission called directly for every
+//     (enabled, identity, policy entry, enforcer error) and compared with the regenerated
+//     decision tree (`c15 decide`).
+//
+// Case = list of lines
+//   `call <Method> <shape> <policy> <load|sighup> [identity]`   one call (own fixture)
+//   `async <step>,<step>,…`   one PublishAsync session; steps: p<k> / n<k> publish to stream
+//        k with ack policy LEADER / NONE, g<k> / r<k> grant / revoke (alice, stream k,
+//        Publish) and reload, z<k> pause stream k (all between two messages)
+//   `decide <enabled> <identity> <entry> <enforcer ok|broken>`
+//   `config <auth> <authz>`
+// each call builds its own fixture (fresh stream names), so a failing call is already a
+// minimal case.
 // Extra line `config <auth> <authz>`: the YAML keys tls.client.auth.enabled /
 // tls.client.authz.enabled are parsed by NewConfig and authorisation must be on iff the
 // authz key says so.
 
 import (
 	"context"
+	"crypto/tls"
+	"crypto/x509"
+	"crypto/x509/pkix"
 	"fmt"
 	"io"
 	"os"
@@ -48,6 +72,8 @@ import (
 	"github.com/casbin/casbin/v2"
 	client "github.com/liftbridge-io/liftbridge-api/v2/go"
 	"google.golang.org/grpc"
+	"google.golang.org/grpc/credentials"
+	"google.golang.org/grpc/peer"
 )
 
 const (
@@ -217,6 +243,9 @@ m = r.sub == p.sub && r.obj == p.obj && r.act == p.act
 	config.NATS.Servers = []string{fmt.Sprintf("nats://127.0.0.1:%d", c15NATSPort)}
 	config.Telemetry.Enabled = false
 	config.CursorsStream.Partitions = 1
+	// no idle auto-pause of the cursors stream (default 1 min): in a long run a granted SetCursor
+	// would resume it, an effect that has nothing to do with the call under test
+	config.CursorsStream.AutoPauseTime = 0
 	config.Groups.ConsumerTimeout = 5 * time.Minute
 	config.Groups.CoordinatorTimeout = 5 * time.Minute
 
@@ -245,6 +274,27 @@ m = r.sub == p.sub && r.obj == p.obj && r.act == p.act
 	}
 	// exactly what startAPIServer does when TLS + authz are configured
 	s.authzEnforcer = &authzEnforcer{enforcer: enf}
+	// an enforcer whose Enforce fails (the matcher calls an undefined function): exercises
+	// the `err != nil` branch of ensureAuthorizationPermission
+	brokenModel := filepath.Join(dir, "broken.conf")
+	os.WriteFile(brokenModel, []byte(`[request_definition]
+r = sub, obj, act
+
+[policy_definition]
+p = sub, obj, act
+
+[policy_effect]
+e = some(where (p.eft == allow))
+
+[matchers]
+m = verifNoSuchFunction(r.sub) && r.sub == p.sub && r.obj == p.obj && r.act == p.act
+`), 0644)
+	c15BrokenEnforcer = nil
+	if benf, berr := casbin.NewEnforcer(brokenModel, policyPath); berr == nil {
+		if ok, eerr := benf.Enforce("x", "y", "z"); eerr != nil && !ok {
+			c15BrokenEnforcer = &authzEnforcer{enforcer: benf}
+		}
+	}
 	return &c15Env{t: t, s: s, dir: dir, policyPath: policyPath, lastOwn: -1}
 }
 
@@ -267,6 +317,80 @@ func (e *c15Env) rootCtx() (context.Context, context.CancelFunc) {
 
 func (e *c15Env) aliceCtx() (context.Context, context.CancelFunc) {
 	return context.WithTimeout(context.WithValue(context.Background(), "clientID", c15Alice), 5*time.Second)
+}
+
+// ---------------------------------------------------------------- identities
+
+// identity kinds: how the context of the call under test is built. The second column of
+// c15Identities is the client id the property attributes to the caller ("client id from
+// the verified TLS certificate"): hasID=false means the caller has no identity at all.
+var c15Identities = []struct {
+	kind  string
+	id    string
+	hasID bool
+}{
+	{"alice", c15Alice, true},          // value stored under the key (what the interceptors do)
+	{"noid", "", false},                // no value under the key
+	{"emptyid", "", false},             // empty string under the key
+	{"wrongtype", "", false},           // a non-string value under the key
+	{"unknown", "mallory", true},       // a client no policy mentions
+	{"nopeer", "", false},              // addUserContext on a context without gRPC peer
+	{"tls-nocert", "", false},          // addUserContext: TLS peer that presented no certificate
+	{"tls-unverified", "", false},      // addUserContext: certificate CN=alice presented but NOT verified
+	{"tls-emptycn", "", false},         // addUserContext: verified certificate with an empty CN
+	{"tls-alice", c15Alice, true},      // addUserContext: verified certificate CN=alice
+}
+
+func c15Identity(kind string) (id string, hasID bool, ok bool) {
+	for _, x := range c15Identities {
+		if x.kind == kind {
+			return x.id, x.hasID, true
+		}
+	}
+	return "", false, false
+}
+
+func c15TLSPeer(verifiedCN, presentedCN *string) context.Context {
+	st := tls.ConnectionState{}
+	if presentedCN != nil {
+		st.PeerCertificates = []*x509.Certificate{{Subject: pkix.Name{CommonName: *presentedCN}}}
+	}
+	if verifiedCN != nil {
+		leaf := &x509.Certificate{Subject: pkix.Name{CommonName: *verifiedCN}}
+		st.PeerCertificates = []*x509.Certificate{leaf}
+		st.VerifiedChains = [][]*x509.Certificate{{leaf, {Subject: pkix.Name{CommonName: "verif-ca"}}}}
+	}
+	return peer.NewContext(context.Background(), &peer.Peer{AuthInfo: credentials.TLSInfo{State: st}})
+}
+
+// c15IdentityCtx builds the context of the call under test; the tls-* / nopeer kinds go
+// through the REAL addUserContext of authz.go.
+func c15IdentityCtx(kind string) context.Context {
+	bg := context.Background()
+	alice, empty := c15Alice, ""
+	switch kind {
+	case "alice":
+		return context.WithValue(bg, "clientID", c15Alice)
+	case "noid":
+		return bg
+	case "emptyid":
+		return context.WithValue(bg, "clientID", "")
+	case "wrongtype":
+		return context.WithValue(bg, "clientID", []byte(c15Alice))
+	case "unknown":
+		return context.WithValue(bg, "clientID", "mallory")
+	case "nopeer":
+		return addUserContext(bg)
+	case "tls-nocert":
+		return addUserContext(c15TLSPeer(nil, nil))
+	case "tls-unverified":
+		return addUserContext(c15TLSPeer(nil, &alice))
+	case "tls-emptycn":
+		return addUserContext(c15TLSPeer(&empty, nil))
+	case "tls-alice":
+		return addUserContext(c15TLSPeer(&alice, nil))
+	}
+	return bg
 }
 
 // ---------------------------------------------------------------- policies
@@ -690,7 +814,7 @@ func c15Within(d time.Duration, f func()) (ok bool, panicked bool) {
 
 // call builds the fixture of (method, shape), installs the policy, performs the call as
 // alice and observes. own = does the policy file contain (alice, R, A).
-func (e *c15Env) call(method, shape, polName, mode string) (own bool, out *c15Outcome, reloadSeen bool, err error) {
+func (e *c15Env) call(method, shape, polName, mode, identity string) (own bool, out *c15Outcome, reloadSeen bool, err error) {
 	fx := &c15Fixture{subject: map[string]string{}, A: method}
 	if method == "PublishAsync" {
 		fx.A = "Publish"
@@ -995,7 +1119,10 @@ func (e *c15Env) call(method, shape, polName, mode string) (own bool, out *c15Ou
 		err = perr
 		return
 	}
-	own = pol.grants(c15Alice, fx.R, fx.A)
+	// the property's own reading: the caller has the entry iff it HAS an identity (a verified,
+	// non-empty client id) and the policy file contains (that id, resource, action)
+	cid, hasID, _ := c15Identity(identity)
+	own = hasID && cid != "" && pol.grants(cid, fx.R, fx.A)
 	reloadSeen, err = e.install(pol, mode)
 	if err != nil {
 		return
@@ -1006,7 +1133,7 @@ func (e *c15Env) call(method, shape, polName, mode string) (own bool, out *c15Ou
 	e.authz(true)
 	var callErr error
 	ok, panicked := c15Within(12*time.Second, func() {
-		ctx, cancel := e.aliceCtx()
+		ctx, cancel := context.WithTimeout(c15IdentityCtx(identity), 5*time.Second)
 		defer cancel()
 		callErr = do(ctx)
 	})
@@ -1047,6 +1174,494 @@ func (e *c15Env) call(method, shape, polName, mode string) (own bool, out *c15Ou
 	sort.Strings(kinds)
 	out.kinds = kinds
 	return
+}
+
+// ---------------------------------------------------------------- PublishAsync sessions
+
+// c15SessStream is the server side of one PublishAsync session: Recv hands out the
+// messages ONE AT A TIME — before message i+1 is handed out, message i has been answered
+// (ack or error report) or has reached its stream's log, and the steps scheduled between
+// the two messages (policy reload, pause) have been executed. Recv runs on the publish
+// loop's own goroutine, so the loop is not processing anything while the policy changes.
+type c15SessStream struct {
+	grpc.ServerStream
+	ctx   context.Context
+	mu    sync.Mutex
+	resps []*client.PublishResponse
+	next  func() (*client.PublishRequest, error)
+}
+
+func (f *c15SessStream) Context() context.Context { return f.ctx }
+func (f *c15SessStream) Send(r *client.PublishResponse) error {
+	f.mu.Lock()
+	f.resps = append(f.resps, r)
+	f.mu.Unlock()
+	return nil
+}
+func (f *c15SessStream) Recv() (*client.PublishRequest, error) { return f.next() }
+
+// answers for a correlation id: error reports and acks
+func (f *c15SessStream) answers(cid string) (reports []*client.PublishAsyncError, acks int) {
+	f.mu.Lock()
+	defer f.mu.Unlock()
+	for _, r := range f.resps {
+		if r.AsyncError != nil && r.CorrelationId == cid {
+			reports = append(reports, r.AsyncError)
+		}
+		if r.AsyncError == nil && r.Ack != nil && r.Ack.CorrelationId == cid {
+			acks++
+		}
+	}
+	return
+}
+
+func c15LogValues(p *partition) ([]string, error) {
+	if p == nil || p.log.OldestOffset() == -1 {
+		return nil, nil
+	}
+	r, err := p.log.NewReader(p.log.OldestOffset(), true)
+	if err != nil {
+		return nil, err
+	}
+	var out []string
+	buf := make([]byte, 28)
+	newest := p.log.NewestOffset()
+	for last := int64(-1); last < newest; {
+		ctx, cancel := context.WithTimeout(context.Background(), time.Second)
+		m, off, _, _, err := r.ReadMessage(ctx, buf)
+		cancel()
+		if err != nil {
+			return out, err
+		}
+		out = append(out, string(m.Value()))
+		last = off
+	}
+	return out, nil
+}
+
+type c15Step struct {
+	op byte
+	k  int
+}
+
+func c15ParseSteps(spec string) ([]c15Step, bool) {
+	var out []c15Step
+	for _, tok := range strings.Split(spec, ",") {
+		if len(tok) != 2 || !strings.ContainsRune("pngrz", rune(tok[0])) || tok[1] < '0' || tok[1] > '2' {
+			return nil, false
+		}
+		out = append(out, c15Step{tok[0], int(tok[1] - '0')})
+	}
+	return out, len(out) > 0
+}
+
+const c15AsyncStreams = 3
+
+// c15AsyncCase runs one real PublishAsync session as alice with authorisation on and records
+// the outcome; the first failing session of a tag is shrunk (steps removed while the same
+// tag keeps failing) before it is recorded.
+func c15AsyncCase(e *c15Env, m *vModel, res *vResult, line, spec string) {
+	specs, fails, stat := c15AsyncExec(e, m, line, spec)
+	for attempt := 0; attempt < 2 && len(fails) > 0; attempt++ {
+		infra := true
+		for _, f := range fails {
+			infra = infra && c15Infra(f.Detail+strings.Join(f.Impl, " "))
+		}
+		if !infra {
+			break
+		}
+		res.Dist("fixture-retry:timeout")
+		specs, fails, stat = c15AsyncExec(e, m, line, spec)
+	}
+	for _, f := range fails {
+		res.Fail(f)
+	}
+	for _, f := range specs {
+		if c15TagCount[f.Tag] == 0 && len(fails) == 0 {
+			same := func(fs []vFailure) *vFailure {
+				for i := range fs {
+					if fs[i].Tag == f.Tag {
+						return &fs[i]
+					}
+				}
+				return nil
+			}
+			steps := append([]string{"begin"}, strings.Split(spec, ",")...)
+			min := vShrink(steps, func(c []string) bool {
+				if len(c) < 2 {
+					return false
+				}
+				sp, fl, _ := c15AsyncExec(e, m, "async "+strings.Join(c[1:], ","), strings.Join(c[1:], ","))
+				return len(fl) == 0 && same(sp) != nil
+			})
+			if len(min) < len(steps) {
+				msp := strings.Join(min[1:], ",")
+				sp, _, _ := c15AsyncExec(e, m, "async "+msp, msp)
+				if g := same(sp); g != nil {
+					g.Detail += " (shrunk from: " + line + ")"
+					f = *g
+				}
+			}
+		}
+		c15Spec(res, f)
+	}
+	if stat != nil {
+		stat(res)
+	}
+}
+
+// c15AsyncExec: one session; returns spec failures, harness/correspondence failures and the
+// statistics to record.
+func c15AsyncExec(e *c15Env, m *vModel, line, spec string) (specs, fails []vFailure, stat func(*vResult)) {
+	one := []string{line}
+	res := &c15Collect{}
+	defer func() { specs, fails = res.specs, res.fails }()
+	steps, ok := c15ParseSteps(spec)
+	if !ok {
+		res.Fail(vFailure{Kind: "disagreement", Case: one, Detail: "unparseable async case"})
+		return
+	}
+	fx := &c15Fixture{subject: map[string]string{}, A: "Publish"}
+	e.authz(false)
+	defer e.cleanup(fx)
+	names := make([]string, c15AsyncStreams)
+	// a pause / resume replaces the partition object: always look it up
+	part := func(k int) *partition { return e.s.metadata.GetPartition(names[k], 0) }
+	for k := range names {
+		names[k] = e.name(fmt.Sprintf("a%d-", k))
+		if err := e.mkStream(fx, names[k]); err != nil {
+			res.Fail(vFailure{Kind: "disagreement", Case: one, Detail: "harness fixture failed: " + err.Error()})
+			return
+		}
+		if err := e.rootPublish(names[k], "m0"); err != nil {
+			res.Fail(vFailure{Kind: "disagreement", Case: one, Detail: "harness fixture failed: " + err.Error()})
+			return
+		}
+	}
+	// policy: bob may publish everywhere, alice may do everything BUT publish (the decisive
+	// entries are added / removed by the g / r steps)
+	granted := make([]bool, c15AsyncStreams)
+	mkPolicy := func() *c15Policy {
+		p := &c15Policy{}
+		for k, n := range names {
+			for _, a := range c15Actions {
+				p.lines = append(p.lines, [3]string{"bob", n, a})
+				if a != "Publish" {
+					p.lines = append(p.lines, [3]string{c15Alice, n, a})
+				}
+			}
+			if granted[k] {
+				p.lines = append(p.lines, [3]string{c15Alice, n, "Publish"})
+			}
+		}
+		return p
+	}
+	if _, err := e.install(mkPolicy(), "load"); err != nil {
+		res.Fail(vFailure{Kind: "disagreement", Case: one, Detail: "harness: policy install: " + err.Error()})
+		return
+	}
+
+	type sent struct {
+		idx, k         int
+		cid, val       string
+		granted, noAck bool
+		pausedAtSend   bool
+		resumedAfter   bool
+		answered       bool
+	}
+	var msgs []*sent
+	var harnessErr string
+	fs := &c15SessStream{}
+	ctx, cancel := context.WithTimeout(context.WithValue(context.Background(), "clientID", c15Alice), 20*time.Second)
+	defer cancel()
+	fs.ctx = ctx
+	// waitAnswered: the previous message has been answered or has reached the log
+	waitAnswered := func(x *sent, base int64) {
+		deadline := time.Now().Add(1500 * time.Millisecond)
+		for time.Now().Before(deadline) {
+			reps, acks := fs.answers(x.cid)
+			if len(reps) > 0 || acks > 0 || part(x.k).log.NewestOffset() > base {
+				x.answered = true
+				break
+			}
+			time.Sleep(time.Millisecond)
+		}
+		x.resumedAfter = x.pausedAtSend && !part(x.k).IsPaused()
+	}
+	pos := 0
+	var prev *sent
+	var prevBase int64
+	fs.next = func() (*client.PublishRequest, error) {
+		if prev != nil {
+			waitAnswered(prev, prevBase)
+			prev = nil
+		}
+		for pos < len(steps) {
+			st := steps[pos]
+			pos++
+			switch st.op {
+			case 'g', 'r':
+				granted[st.k] = st.op == 'g'
+				if _, err := e.install(mkPolicy(), "load"); err != nil {
+					harnessErr = "policy install: " + err.Error()
+					return nil, io.EOF
+				}
+			case 'z':
+				if !part(st.k).IsPaused() {
+					e.authz(false)
+					err := e.rootPause(names[st.k], false)
+					e.authz(true)
+					if err != nil {
+						harnessErr = "pause: " + err.Error()
+						return nil, io.EOF
+					}
+				}
+			case 'p', 'n':
+				x := &sent{idx: len(msgs), k: st.k, granted: granted[st.k], noAck: st.op == 'n', pausedAtSend: part(st.k).IsPaused()}
+				x.cid = fmt.Sprintf("c%d", x.idx)
+				x.val = fmt.Sprintf("v%d", x.idx)
+				msgs = append(msgs, x)
+				prev, prevBase = x, part(st.k).log.NewestOffset()
+				ack := client.AckPolicy_LEADER
+				if x.noAck {
+					ack = client.AckPolicy_NONE
+				}
+				return &client.PublishRequest{Stream: names[st.k], Value: []byte(x.val), AckPolicy: ack, CorrelationId: x.cid}, nil
+			}
+		}
+		time.Sleep(30 * time.Millisecond) // anything on top of the last answer
+		return nil, io.EOF
+	}
+
+	e.authz(true)
+	var callErr error
+	finished, panicked := c15Within(25*time.Second, func() { callErr = e.s.api.PublishAsync(fs) })
+	e.authz(false)
+	if !finished || panicked {
+		res.spec(vFailure{Kind: "spec", Case: one, Tag: "authz-call-hang-or-panic:PublishAsync", Detail: "the session did not end / panicked"})
+		return
+	}
+	if harnessErr != "" {
+		res.Fail(vFailure{Kind: "disagreement", Case: one, Detail: "harness: " + harnessErr})
+		return
+	}
+	// a sentinel through the server's own publish connection flushes the asynchronous NATS
+	// path (and resumes a stream that is still paused, whose log cannot be read otherwise;
+	// the paused flags were sampled per message)
+	logs := make([]map[string]bool, c15AsyncStreams)
+	for k := range names {
+		if err := e.rootPublish(names[k], "sentinel"); err != nil {
+			res.Fail(vFailure{Kind: "disagreement", Case: one, Detail: "harness: sentinel publish to " + names[k] + ": " + err.Error()})
+			return
+		}
+		vals, err := c15LogValues(part(k))
+		if err != nil {
+			res.Fail(vFailure{Kind: "disagreement", Case: one, Detail: "harness: reading the log of " + names[k] + ": " + err.Error()})
+			return
+		}
+		logs[k] = map[string]bool{}
+		for _, v := range vals {
+			logs[k][v] = true
+		}
+	}
+
+	// ---- per message: spec oracle + model
+	bits := ""
+	for _, x := range msgs {
+		if x.granted {
+			bits += "1"
+		} else {
+			bits += "0"
+		}
+	}
+	var pred []string
+	if len(msgs) > 0 {
+		ans := strings.Fields(m.Ask1("c15 session PublishAsync " + bits))
+		if len(ans) != len(msgs)+1 || ans[0] != "ok" {
+			res.Fail(vFailure{Kind: "disagreement", Case: one, Model: ans, Detail: "model has no per-message loop for PublishAsync"})
+			return
+		}
+		pred = ans[1:]
+	}
+	var implLines []string
+	nDenied, shape := 0, ""
+	lastDeniedStream := map[int]bool{}
+	for i, x := range msgs {
+		reps, acks := fs.answers(x.cid)
+		denied := false
+		for _, r := range reps {
+			if r.Code == client.PublishAsyncError_PERMISSION_DENIED {
+				denied = true
+			}
+		}
+		inLog := false
+		for k := range logs {
+			if logs[k][x.val] {
+				inLog = true
+			}
+		}
+		il := fmt.Sprintf("msg %d stream=%d granted=%v ack=%v: permissionDenied=%v reports=%d acks=%d inLog=%v resumed=%v answered=%v",
+			x.idx, x.k, x.granted, !x.noAck, denied, len(reps), acks, inLog, x.resumedAfter, x.answered)
+		implLines = append(implLines, il)
+		if x.granted {
+			shape += "a"
+		} else {
+			nDenied++
+			if lastDeniedStream[x.k] {
+				shape += "D" // a denied stream that was already denied earlier in this session
+			} else {
+				shape += "d"
+			}
+			lastDeniedStream[x.k] = true
+		}
+		if !x.granted {
+			var what []string
+			if inLog {
+				what = append(what, "the message is in the stream's log")
+			}
+			if acks > 0 {
+				what = append(what, "the message was acked")
+			}
+			if x.resumedAfter {
+				what = append(what, "the paused stream was resumed")
+			}
+			if !denied {
+				what = append(what, "no PERMISSION_DENIED reply")
+			}
+			if len(what) > 0 {
+				res.spec(vFailure{Kind: "spec", Case: one, Impl: implLines, Tag: "authz-async-publish-unchecked",
+					Detail: fmt.Sprintf("message %d of the session goes to a stream for which the policy in force has no (alice, stream, Publish) entry, but: %s", x.idx, strings.Join(what, "; "))})
+			}
+		} else {
+			if denied {
+				res.spec(vFailure{Kind: "spec", Case: one, Impl: implLines, Tag: "authz-reload-stale:PublishAsync",
+					Detail: fmt.Sprintf("message %d: the policy in force grants (alice, stream, Publish) but the message was refused as unauthorised", x.idx)})
+			} else if !inLog {
+				why := ""
+				for _, r := range reps {
+					why += " [" + r.Code.String() + ": " + r.Message + "]"
+				}
+				res.Fail(vFailure{Kind: "disagreement", Case: one, Impl: implLines,
+					Detail: fmt.Sprintf("observer blind: granted message %d is not in the log%s", x.idx, why)})
+			}
+		}
+		// model: `denied` = every path of the iteration refuses without effect
+		pf := strings.Split(pred[i], ":")
+		if len(pf) == 3 && pf[1] == "denied" && (inLog || acks > 0 || x.resumedAfter || !denied) {
+			res.Fail(vFailure{Kind: "disagreement", Case: one, Impl: implLines, Model: pred,
+				Detail: fmt.Sprintf("model: message %d is refused without effect on every path; implementation: %s", x.idx, il)})
+		}
+		if len(pf) == 3 && inLog && !strings.Contains(pf[2], "natsPublish") {
+			res.Fail(vFailure{Kind: "disagreement", Case: one, Impl: implLines, Model: pred,
+				Detail: fmt.Sprintf("message %d was published; the model has no publishing path for it", x.idx)})
+		}
+	}
+	if callErr != nil {
+		implLines = append(implLines, "PublishAsync returned: "+callErr.Error())
+	}
+	if len(shape) > 8 {
+		shape = shape[:8] + "+"
+	}
+	nm := len(msgs)
+	stat = func(r *vResult) {
+		r.Count("async/"+spec, nDenied > 0)
+		r.Dist("method:PublishAsync-session")
+		r.Dist("session-shape:" + shape)
+		r.Dist(fmt.Sprintf("session-len:%d", nm))
+		r.Sample(map[string]interface{}{"case": line, "impl": implLines, "model": pred})
+	}
+	return
+}
+
+type c15Collect struct{ specs, fails []vFailure }
+
+func (c *c15Collect) Fail(f vFailure) { c.fails = append(c.fails, f) }
+func (c *c15Collect) spec(f vFailure) { c.specs = append(c.specs, f) }
+
+// ---------------------------------------------------------------- the check itself
+
+var c15BrokenEnforcer *authzEnforcer
+
+// c15DecideCase calls ensureAuthorizationPermission directly and compares it with the
+// regenerated decision tree; the spec oracle is the property's own reading.
+func c15DecideCase(e *c15Env, m *vModel, res *vResult, line, enabled, identity, entry, enforcer string) {
+	one := []string{line}
+	cid, hasID, known := c15Identity(identity)
+	if !known || (enabled != "0" && enabled != "1") || (entry != "0" && entry != "1") || (enforcer != "ok" && enforcer != "broken") {
+		res.Fail(vFailure{Kind: "disagreement", Case: one, Detail: "unparseable decide case"})
+		return
+	}
+	R, A := "dres", "Publish"
+	pol := &c15Policy{}
+	for _, a := range c15Actions {
+		pol.lines = append(pol.lines, [3]string{"bob", R, a})
+		if a != A {
+			pol.lines = append(pol.lines, [3]string{c15Alice, R, a}, [3]string{"mallory", R, a})
+		}
+	}
+	pol.lines = append(pol.lines, [3]string{c15Alice, "other-" + R, A})
+	if entry == "1" {
+		pol.lines = append(pol.lines, [3]string{c15Alice, R, A}, [3]string{"mallory", R, A})
+	}
+	if _, err := e.install(pol, "load"); err != nil {
+		res.Fail(vFailure{Kind: "disagreement", Case: one, Detail: "harness: policy install: " + err.Error()})
+		return
+	}
+	good := e.s.authzEnforcer
+	enfErr := false
+	if enforcer == "broken" {
+		if c15BrokenEnforcer == nil {
+			res.Count("decide-skipped-broken", false)
+			return
+		}
+		e.s.authzEnforcer = c15BrokenEnforcer
+		enfErr = true
+	}
+	e.authz(enabled == "1")
+	var err error
+	panicked, pv := vCatch(func() { err = e.s.api.ensureAuthorizationPermission(c15IdentityCtx(identity), R, A) })
+	e.authz(false)
+	e.s.authzEnforcer = good
+	impl := "allow"
+	if err != nil {
+		impl = "refuse"
+	}
+	if panicked {
+		impl = fmt.Sprintf("panic: %v", pv)
+	}
+	has := hasID && cid != "" && entry == "1" && !enfErr
+	res.Count(line, enabled == "1" && !has)
+	res.Dist("decide")
+	res.Dist("identity:" + identity)
+	if enabled == "1" && !has && impl != "refuse" {
+		tag := "authz-check-allows-without-entry"
+		if !hasID {
+			tag = "authz-no-identity-allowed:ensureAuthorizationPermission"
+		}
+		c15Spec(res, vFailure{Kind: "spec", Case: one, Impl: []string{impl}, Tag: tag,
+			Detail: fmt.Sprintf("authorisation enabled, caller identity %q (has identity: %v), policy entry present: %v, enforcer: %s — the check answered %s", identity, hasID, entry == "1", enforcer, impl)})
+	}
+	// model inputs: what the function sees
+	mid := "none"
+	switch identity {
+	case "emptyid", "tls-emptycn":
+		mid = "empty"
+	case "alice", "tls-alice":
+		mid = "id:" + c15Alice
+	case "unknown":
+		mid = "id:mallory"
+	}
+	b := func(x bool) string {
+		if x {
+			return "1"
+		}
+		return "0"
+	}
+	ans := m.Ask1(fmt.Sprintf("c15 decide %s %s %s %s", enabled, mid, b(enfErr), b(entry == "1" && mid != "none" && mid != "empty" && !enfErr)))
+	if ans != "ok "+impl {
+		res.Fail(vFailure{Kind: "disagreement", Case: one, Impl: []string{impl}, Model: []string{ans},
+			Detail: "ensureAuthorizationPermission and the regenerated decision tree disagree"})
+	}
 }
 
 // ---------------------------------------------------------------- model
@@ -1095,6 +1710,16 @@ func c15GroupRPC(m string) bool {
 
 // ---------------------------------------------------------------- driver of cases
 
+// c15Infra: the text of an infrastructure timeout. Server.getRaftLogFuture's timeoutFuture
+// can miss the completion of a Raft operation (unbuffered channel, non-blocking send from
+// the waiting goroutine) and then reports "raft operation timed out" when the context
+// deadline passes, roughly once in tens of thousands of operations; a fixture or a GRANTED
+// call that fails this way says nothing about authorisation and is retried / counted as
+// inconclusive. A denied call never gets as far as Raft.
+func c15Infra(s string) bool {
+	return strings.Contains(s, "raft operation timed out") || strings.Contains(s, "context deadline exceeded")
+}
+
 // c15Spec records the first spec failure of each tag (each is already a minimal
 // one-call case) and counts the rest, so that distinct findings are not crowded out.
 var c15TagCount = map[string]int{}
@@ -1114,12 +1739,35 @@ func c15RunCase(e *c15Env, m *vModel, res *vResult, lines []string) {
 			c15ConfigCase(e, res, line, f[1] == "1", f[2] == "1")
 			continue
 		}
-		if len(f) != 5 || f[0] != "call" {
+		if len(f) == 2 && f[0] == "async" {
+			c15AsyncCase(e, m, res, line, f[1])
+			e.lastOwn = -1
+			continue
+		}
+		if len(f) == 5 && f[0] == "decide" {
+			c15DecideCase(e, m, res, line, f[1], f[2], f[3], f[4])
+			continue
+		}
+		if (len(f) != 5 && len(f) != 6) || f[0] != "call" {
 			res.Fail(vFailure{Kind: "disagreement", Case: lines, Detail: "unparseable case line: " + line})
 			return
 		}
 		method, shape, polName, mode := f[1], f[2], f[3], f[4]
-		own, out, reloadSeen, err := e.call(method, shape, polName, mode)
+		identity := "alice"
+		if len(f) == 6 {
+			identity = f[5]
+		}
+		if _, _, known := c15Identity(identity); !known {
+			res.Fail(vFailure{Kind: "disagreement", Case: lines, Detail: "unknown identity kind: " + line})
+			return
+		}
+		_, idHas, _ := c15Identity(identity)
+		own, out, reloadSeen, err := e.call(method, shape, polName, mode, identity)
+		for attempt := 0; err != nil && c15Infra(err.Error()) && attempt < 2; attempt++ {
+			// the FIXTURE hit an infrastructure timeout (see c15Infra): build it again
+			res.Dist("fixture-retry:timeout")
+			own, out, reloadSeen, err = e.call(method, shape, polName, mode, identity)
+		}
 		if err != nil {
 			res.Fail(vFailure{Kind: "disagreement", Case: []string{line}, Detail: "harness fixture failed: " + err.Error()})
 			continue
@@ -1132,7 +1780,8 @@ func c15RunCase(e *c15Env, m *vModel, res *vResult, lines []string) {
 		if strings.HasPrefix(polName, "rnd:") {
 			polClass = "rnd"
 		}
-		res.Count(method+"/"+shape+"/"+polClass+"/"+ownS+"/"+mode, !own)
+		res.Count(method+"/"+shape+"/"+polClass+"/"+ownS+"/"+mode+"/"+identity, !own)
+		res.Dist("identity:" + identity)
 		res.Dist("method:" + method)
 		res.Dist("shape:" + method + "/" + shape)
 		res.Dist("policy:" + polClass)
@@ -1168,8 +1817,15 @@ func c15RunCase(e *c15Env, m *vModel, res *vResult, lines []string) {
 					tag = "authz-publishasync-continues"
 				case c15GroupRPC(method):
 					tag = "authz-group-rpc-unchecked:" + method
+				case !idHas:
+					tag = "authz-no-identity-allowed:" + method
 				}
 				detail := fmt.Sprintf("policy %s has no entry (alice, %s, %s) but: refused=%v, observed effects=%v", polName, out.R, out.A, out.refused, out.kinds)
+				if identity != "alice" {
+					cid, _, _ := c15Identity(identity)
+					detail = fmt.Sprintf("caller identity %q (client id %q, has identity: %v), policy %s: no entry (caller, %s, %s) but: refused=%v, observed effects=%v",
+						identity, cid, idHas, polName, out.R, out.A, out.refused, out.kinds)
+				}
 				if e.lastOwn == 1 && !out.refused && !c15GroupRPC(method) {
 					detail += " (the previous call of this case was granted: possibly a stale policy after reload)"
 				}
@@ -1219,7 +1875,11 @@ func c15RunCase(e *c15Env, m *vModel, res *vResult, lines []string) {
 						seen = true
 					}
 				}
-				if !seen {
+				if !seen && c15Infra(out.errText) {
+					// a granted call that failed on an infrastructure timeout (loaded machine)
+					// says nothing about the observer: inconclusive, counted
+					res.Dist("positive-control-inconclusive:timeout")
+				} else if !seen {
 					res.Fail(vFailure{Kind: "disagreement", Case: one, Impl: impl, Model: []string{ans},
 						Detail: "observer blind: the call was granted but the expected effect " + want + " was not observed (" + out.errText + ")"})
 				}
@@ -1291,6 +1951,22 @@ func TestVerifC15(t *testing.T) {
 		}
 	}
 
+	// every per-message loop of the regenerated table must have a session scenario
+	ll := strings.Fields(m.Ask1("c15 loops"))
+	if len(ll) < 2 || ll[0] != "ok" {
+		res.Fail(vFailure{Kind: "disagreement", Detail: "model: c15 loops -> " + strings.Join(ll, " ")})
+	} else {
+		for _, l := range ll[1:] {
+			if l != "PublishAsync" && l != "publishLoop" {
+				res.Fail(vFailure{Kind: "disagreement", Case: []string{"c15 loops"}, Model: ll,
+					Detail: "the regenerated table has a per-message loop reached from " + l + " for which the harness has no session scenario"})
+			}
+		}
+	}
+	if c15BrokenEnforcer == nil {
+		res.Note("could not build a casbin enforcer whose Enforce fails: the enforce-error branch of the check is not exercised")
+	}
+
 	if rc := vReplayCase(t); rc != nil {
 		c15RunCase(e, m, res, rc)
 		return
@@ -1314,7 +1990,90 @@ func TestVerifC15(t *testing.T) {
 			}
 		}
 	}
+	// the check itself: every (enabled, identity, entry, enforcer)
+	for _, en := range []string{"1", "0"} {
+		for _, id := range c15Identities {
+			for _, entry := range []string{"0", "1"} {
+				for _, enf := range []string{"ok", "broken"} {
+					c15RunCase(e, m, res, []string{fmt.Sprintf("decide %s %s %s %s", en, id.kind, entry, enf)})
+				}
+			}
+		}
+	}
+
+	// identities: every method under every identity kind, with the policy that grants alice
+	// (and nobody else) everything; all kinds on the plain shape, the kinds without any
+	// identity on every other shape (thorough: everything)
+	for _, ms := range c15Shapes {
+		for si, sh := range ms.shapes {
+			for _, id := range c15Identities {
+				if id.kind == "alice" {
+					continue
+				}
+				if si > 0 && !vThorough() && id.kind != "noid" && id.kind != "tls-unverified" {
+					continue
+				}
+				c15RunCase(e, m, res, []string{fmt.Sprintf("call %s %s allow load %s", ms.method, sh, id.kind)})
+			}
+		}
+		c15RunCase(e, m, res, []string{fmt.Sprintf("call %s %s deny load noid", ms.method, ms.shapes[0])})
+	}
+
+	// PublishAsync sessions: every sequence of up to 4 (thorough 6) messages over a stream
+	// that is never granted (0) and one that is (1) …
+	maxLen := 4
+	if vThorough() {
+		maxLen = 6
+	}
+	for n := 1; n <= maxLen; n++ {
+		for bitsN := 0; bitsN < 1<<uint(n); bitsN++ {
+			st := []string{"g1"}
+			for i := 0; i < n; i++ {
+				st = append(st, fmt.Sprintf("p%d", (bitsN>>uint(i))&1))
+			}
+			c15RunCase(e, m, res, []string{"async " + strings.Join(st, ",")})
+		}
+	}
+	// … and sessions with reloads / pauses / unacknowledged messages between messages
+	for _, sp := range []string{
+		"p0,p0,p0",                // a denied stream repeated
+		"g1,p0,p1,p0,p1,p0",       // alternation denied / allowed
+		"g1,p1,p0,p0",             // allowed, denied, the same denied again
+		"g0,p0,r0,p0,p0,g0,p0",    // grant revoked in mid-session, later restored
+		"p0,g0,p0,r0,p0,p0",       // denied, granted, revoked: denied twice again
+		"g0,g1,p0,p1,r0,p0,p1,p0", // revoke one of two streams
+		"z0,p0,p0",                // denied messages to a paused stream do not resume it
+		"g1,z0,p0,p1,p0",          //
+		"g0,z0,p0,r0,z0,p0,p0",    // resumed by a granted message, paused again, then denied
+		"n0,n0",                   // unacknowledged messages
+		"g1,n1,n0,n0,p0",          //
+		"g0,n0,r0,n0,n0",          //
+		"p0,p1,p2,p0,p1,p2",       // three denied streams in turn
+	} {
+		c15RunCase(e, m, res, []string{"async " + sp})
+	}
 	res.Exhaustive = true
+	{
+		r := vNewRand(1515)
+		n := 40
+		if vThorough() {
+			n = 1500
+		}
+		ops := "ppppnnggrz"
+		for i := 0; i < n; i++ {
+			var st []string
+			k := 3 + r.Intn(8)
+			for j := 0; j < k; j++ {
+				op := ops[r.Intn(len(ops))]
+				st = append(st, fmt.Sprintf("%c%d", op, r.Intn(c15AsyncStreams)))
+				// favour "the same stream again"
+				if (op == 'p' || op == 'n') && r.Intn(3) == 0 {
+					st = append(st, st[len(st)-1])
+				}
+			}
+			c15RunCase(e, m, res, []string{"async " + strings.Join(st, ",")})
+		}
+	}
 
 	// reload transitions, through the real signal: deny -> allow -> deny and allow -> otheracts
 	for _, ms := range c15Shapes {
